@@ -1,8 +1,14 @@
 (* Properties/C06.v - HTTP/2 connections respect everything the peer advertised.
    Only statements, `exact`, and Print Assumptions.
-   Part 1: the flow-control kernel (Gen/H2Flow.v = internal/http2/flow.go translated by gosync). *)
-From Coq Require Import ZArith Bool List.
-From ReqV Require Import Lib.GoInt Gen.H2Flow Model.H2Flow Proofs.H2FlowProofs.
+   Part 1: the flow-control kernel (Gen/H2Flow.v = internal/http2/flow.go translated by gosync).
+   Part 2: the client connection machine (Model/H2Conn.v, windows computed by the generated
+   kernel) against the strict peer-side monitor (Model/H2Monitor.v) and the stand-alone trace
+   predicates (Model/H2TraceSpec.v), for ARBITRARY event lists = all interleavings of client
+   actions and peer frames. *)
+From Coq Require Import ZArith Bool Lia List.
+From ReqV Require Import Lib.GoInt Gen.H2Flow Model.H2Flow Model.H2Monitor Model.H2Conn Model.H2TraceSpec
+                         Proofs.H2FlowProofs Proofs.H2ConnProofs Proofs.H2CreditProofs Proofs.H2ConnTheorems.
+Import ListNotations.
 Open Scope Z_scope.
 
 (* outflow.add returns true and stores the exact sum iff the mathematical sum fits in int32;
@@ -64,3 +70,140 @@ Example C06_flow_nonvacuous :
   inflow_add 4194304 0 1000 = (Ret 0, (4194304, 1000)) /\
   inflow_take 5 0 6 = (Ret false, (5, 0)).
 Proof. vm_compute. repeat split. Qed.
+
+
+(* ================= Part 2: the connection ================= *)
+(* cfg_ok: the caller's fingerprint is a legal one - HeaderPriority adds 0 or 5 bytes, PRIORITY
+   frames name odd stream ids, the advertised stream window and 65535 + the connection
+   WINDOW_UPDATE fit in 31 bits.  trace_of ... evs = every frame read or written by the machine,
+   in the order in which the client processes/writes them, for the event list evs. *)
+
+(* the strict peer, started from its protocol defaults, accepts the preface and every later
+   frame: no violation class (windows, frame size, stream limit, ids, header blocks, closed
+   streams, spurious or missing acks) is ever reported *)
+Theorem C06_admissible_from_preface : forall prio_len prio_last kvs conn_flow prios evs,
+  cfg_ok prio_len prio_last (last_setting S_INITIAL_WINDOW_SIZE kvs 65535) conn_flow ->
+  accepts mon0 (preface kvs conn_flow prios ++
+                trace_of prio_len prio_last (last_setting S_INITIAL_WINDOW_SIZE kvs 65535) conn_flow evs) = true.
+Proof. exact admissible_from_preface. Qed.
+Print Assumptions C06_admissible_from_preface.
+
+(* every DATA frame fits into the connection window and (unless the peer already closed the
+   stream) the stream window the peer has on its books at that moment - including windows
+   that a lowered INITIAL_WINDOW_SIZE made zero or negative *)
+Theorem C06_data_within_windows : forall prio_len prio_last stream_in conn_flow,
+  cfg_ok prio_len prio_last stream_in conn_flow ->
+  forall evs pre sid len es post,
+  trace_of prio_len prio_last stream_in conn_flow evs = pre ++ C (FData sid len es) :: post ->
+  exists m s, mon_steps (mon_init stream_in conn_flow) pre = Some m /\
+    find_ms sid (m_streams m) = Some s /\ ms_cli_closed s = false /\
+    (0 < len -> len <= m_conn_win m /\ (ms_closed s = false -> len <= ms_win s)).
+Proof. exact data_within_windows. Qed.
+Print Assumptions C06_data_within_windows.
+
+(* no HEADERS/CONTINUATION/DATA payload exceeds the MAX_FRAME_SIZE last acknowledged (and no
+   SETTINGS frame of the peer is in flight at that point) *)
+Theorem C06_data_within_max_frame : forall prio_len prio_last stream_in conn_flow,
+  cfg_ok prio_len prio_last stream_in conn_flow ->
+  forall evs pre f l post,
+  trace_of prio_len prio_last stream_in conn_flow evs = pre ++ C f :: post -> frame_len f = Some l ->
+  exists m, mon_steps (mon_init stream_in conn_flow) pre = Some m /\ m_pending m = [] /\ l <= m_max_frame m.
+Proof. exact data_within_max_frame. Qed.
+Print Assumptions C06_data_within_max_frame.
+
+(* a HEADERS frame opens a new stream only while fewer streams than MAX_CONCURRENT_STREAMS are open *)
+Theorem C06_streams_within_limit : forall prio_len prio_last stream_in conn_flow,
+  cfg_ok prio_len prio_last stream_in conn_flow ->
+  forall evs pre sid l eh es post,
+  trace_of prio_len prio_last stream_in conn_flow evs = pre ++ C (FHeaders sid l eh es) :: post ->
+  exists m, mon_steps (mon_init stream_in conn_flow) pre = Some m /\ m_pending m = [] /\
+    (find_ms sid (m_streams m) = None ->
+       forall v, m_max_streams m = Some v -> open_count (m_streams m) < v).
+Proof. exact streams_within_limit. Qed.
+Print Assumptions C06_streams_within_limit.
+
+(* a new stream's id is odd and larger than the id of every stream opened before *)
+Theorem C06_stream_ids_odd_increasing : forall prio_len prio_last stream_in conn_flow,
+  cfg_ok prio_len prio_last stream_in conn_flow ->
+  forall evs pre sid l eh es post,
+  trace_of prio_len prio_last stream_in conn_flow evs = pre ++ C (FHeaders sid l eh es) :: post ->
+  exists m, mon_steps (mon_init stream_in conn_flow) pre = Some m /\
+    (find_ms sid (m_streams m) = None ->
+       Z.odd sid = true /\ Forall (fun s => ms_id s < sid) (m_streams m)).
+Proof. exact stream_ids_odd_increasing. Qed.
+Print Assumptions C06_stream_ids_odd_increasing.
+
+(* header blocks are contiguous and complete *)
+Theorem C06_header_block_contiguous : forall prio_len prio_last stream_in conn_flow,
+  cfg_ok prio_len prio_last stream_in conn_flow ->
+  forall evs, hb_run 0 (trace_of prio_len prio_last stream_in conn_flow evs) = Some 0.
+Proof. exact header_block_contiguous. Qed.
+Print Assumptions C06_header_block_contiguous.
+
+(* after END_STREAM / RST_STREAM nothing but RST_STREAM, WINDOW_UPDATE (and PRIORITY) on that stream *)
+Theorem C06_closed_stream_silence : forall prio_len prio_last stream_in conn_flow,
+  cfg_ok prio_len prio_last stream_in conn_flow ->
+  forall evs, css_ok [] (trace_of prio_len prio_last stream_in conn_flow evs) = true.
+Proof. exact closed_stream_silence. Qed.
+Print Assumptions C06_closed_stream_silence.
+
+(* every SETTINGS frame is acknowledged at once, nothing else is acknowledged, none is left *)
+Theorem C06_every_settings_acked : forall prio_len prio_last stream_in conn_flow,
+  cfg_ok prio_len prio_last stream_in conn_flow ->
+  forall evs,
+  sa_ok (trace_of prio_len prio_last stream_in conn_flow evs) = true /\
+  exists m', mon_steps (mon_init stream_in conn_flow) (trace_of prio_len prio_last stream_in conn_flow evs) = Some m' /\
+             m_pending m' = [].
+Proof. exact every_settings_acked. Qed.
+Print Assumptions C06_every_settings_acked.
+
+(* credit conservation, connection and every stream the peer may still send on: window the peer
+   has + credit not yet sent + bytes still buffered = what was advertised; the peer's books
+   equal the client's; unsent credit is 0 or below both 4096 and the window *)
+Theorem C06_credit_conservation : forall prio_len prio_last stream_in conn_flow,
+  cfg_ok prio_len prio_last stream_in conn_flow ->
+  forall evs, exists m',
+  mon_steps (mon_init stream_in conn_flow) (trace_of prio_len prio_last stream_in conn_flow evs) = Some m' /\
+  let c := fst (conn_run (conn0 prio_len prio_last stream_in conn_flow) evs) in
+  in_avail (cc_in c) + in_unsent (cc_in c) + total_buffered (cc_streams c) = 65535 + conn_flow /\
+  m_c_conn_win m' = in_avail (cc_in c) /\ 0 <= in_unsent (cc_in c) /\ unsent_ok (cc_in c) /\
+  forall sid s, find_cs sid (cc_streams c) = Some s -> open_rx s = true ->
+    exists ms, find_ms sid (m_streams m') = Some ms /\ ms_recv ms = in_avail (cs_in s) /\
+      in_avail (cs_in s) + in_unsent (cs_in s) + cs_buf s = stream_in /\
+      0 <= in_unsent (cs_in s) /\ 0 <= cs_buf s /\ unsent_ok (cs_in s).
+Proof. exact credit_conservation. Qed.
+Print Assumptions C06_credit_conservation.
+
+(* no permanent stall: when the application has consumed or discarded everything buffered, the
+   peer's connection window (resp. the window of a stream it may still send on) is positive,
+   within 4095 bytes of - and more than half of - what was advertised *)
+Theorem C06_no_permanent_stall : forall prio_len prio_last stream_in conn_flow,
+  cfg_ok prio_len prio_last stream_in conn_flow ->
+  forall evs, exists m',
+  mon_steps (mon_init stream_in conn_flow) (trace_of prio_len prio_last stream_in conn_flow evs) = Some m' /\
+  let c := fst (conn_run (conn0 prio_len prio_last stream_in conn_flow) evs) in
+  (total_buffered (cc_streams c) = 0 ->
+     65535 + conn_flow - 4095 <= m_c_conn_win m' /\ 65535 + conn_flow <= 2 * m_c_conn_win m' /\ 0 < m_c_conn_win m') /\
+  forall sid s, find_cs sid (cc_streams c) = Some s -> open_rx s = true -> cs_buf s = 0 ->
+    exists ms, find_ms sid (m_streams m') = Some ms /\
+      stream_in - 4095 <= ms_recv ms /\ stream_in <= 2 * ms_recv ms /\ (0 < stream_in -> 0 < ms_recv ms).
+Proof. exact no_permanent_stall. Qed.
+Print Assumptions C06_no_permanent_stall.
+
+(* non-vacuity: a legal configuration (priority fields on HEADERS, Firefox-like PRIORITY frames up
+   to stream 13, stream window 1000) and an interleaving with a 40000-byte header block, the
+   peer lowering MAX_CONCURRENT_STREAMS to 1 and INITIAL_WINDOW_SIZE to 100 and then 0 (window
+   -100), a 150-byte WINDOW_UPDATE, padded response DATA, reads, close and a late DATA frame *)
+Example C06_conn_nonvacuous :
+  cfg_ok 5 13 1000 1000 /\
+  trace_of 5 13 1000 1000
+    [EOpen 40000 false; ESettings [(3,1);(4,100);(5,16384)]; EOpen 10 true; ESendData 15 300 false; ESettings [(4,0)];
+     ESendData 15 300 false; EWindowUpdate 15 150; ESendData 15 300 true; ESendData 15 300 true;
+     EPeerData 15 600 100 false; EAppRead 15 500 false; EPeerData 15 400 0 true; EAppClose 15; ESendEnd 15 0;
+     EForget 15; EOpen 10 true; EPeerData 15 10 0 false] =
+    [C (FHeaders 15 16384 false false); C (FContinuation 15 16384 false); C (FContinuation 15 7237 true);
+     P (FSettings [(3, 1); (4, 100); (5, 16384)]); C FSettingsAck; C (FData 15 100 false);
+     P (FSettings [(4, 0)]); C FSettingsAck; P (FWindowUpdate 15 150); C (FData 15 50 false);
+     P (FData 15 600 false); C (FWindowUpdate 15 600); P (FData 15 400 true); C (FData 15 0 true);
+     C (FHeaders 17 15 true true); P (FData 15 10 false)].
+Proof. split; [unfold cfg_ok; repeat split; try lia; right; split; [lia|reflexivity]|vm_compute; reflexivity]. Qed.
